@@ -148,6 +148,117 @@ func replayParse(raw json.RawMessage) hx.Outcome {
 	return hx.OK(c.Norders > 1)
 }
 
+// ---- sources with several collected errors (Resolver.tla section 4, ResolverGen family "collect") ----
+
+// CollectParses is the number of times a source with several collected
+// errors is parsed.
+var CollectParses = 200
+
+type Site struct {
+	L int    `json:"l"`
+	C int    `json:"c"`
+	K string `json:"k"`
+}
+
+type CollectCase struct {
+	Fam      string `json:"fam"`
+	Lines    int    `json:"lines"`
+	Sites    []Site `json:"sites"`
+	Verdict  string `json:"verdict"`
+	Distinct int    `json:"distinct"` // number of different outcomes of repeated parses: 1
+	Walks    int    `json:"walks"`    // orders in which the parser's table of comma lists can be walked
+}
+
+// RenderCollect writes the source: CLines lines of three places of equal
+// width inside BEGIN; a place holds a harmless assignment or an error site.
+// A later line's first place starts at a smaller column than an earlier
+// line's second and third place.
+func RenderCollect(lines int, sites []Site) (string, bool) {
+	at := map[[2]int]string{}
+	for _, st := range sites {
+		if st.L < 1 || st.L > lines || st.C < 1 || st.C > 3 {
+			return "", false
+		}
+		at[[2]int{st.L, st.C}] = st.K
+	}
+	var sb strings.Builder
+	sb.WriteString("function f1(p) { return p }\nBEGIN {\n")
+	for l := 1; l <= lines; l++ {
+		sb.WriteString("  ")
+		for c := 1; c <= 3; c++ {
+			var text string
+			switch at[[2]int{l, c}] {
+			case "":
+				text = fmt.Sprintf("n%d%d = 1;", l, c)
+			case "comma": // an unused parenthesised comma list: kept in the parser's table until the end of the text
+				text = fmt.Sprintf("(a%d%d, 1);", l, c)
+			case "type": // a global used as an array and as a scalar
+				text = fmt.Sprintf("t%d%d[1] = 1; t%d%d = 2;", l, c, l, c)
+			case "undef": // a call of a function that is not defined
+				text = fmt.Sprintf("u%d%d();", l, c)
+			case "args": // more arguments than parameters
+				text = "f1(1, 2);"
+			default:
+				return "", false
+			}
+			fmt.Fprintf(&sb, "%-28s", text)
+		}
+		sb.WriteString("\n")
+	}
+	sb.WriteString("}\n")
+	return sb.String(), true
+}
+
+func collectClass(sites []Site) string {
+	kinds := map[string]int{}
+	for _, st := range sites {
+		kinds[st.K]++
+	}
+	switch {
+	case len(kinds) == 1 && kinds["comma"] > 0:
+		return "comma-lists"
+	case len(kinds) == 1:
+		return sites[0].K + "-errors"
+	case kinds["comma"] > 1:
+		return "mixed-with-comma-lists"
+	}
+	return "mixed"
+}
+
+// replayCollect: a source with several independent errors, parsed
+// CollectParses times: one verdict, one message and position.
+func replayCollect(raw json.RawMessage) hx.Outcome {
+	var c CollectCase
+	if err := json.Unmarshal(raw, &c); err != nil || c.Verdict == "" {
+		return hx.Outcome{Skipped: true, Note: "bad case"}
+	}
+	src, ok := RenderCollect(c.Lines, c.Sites)
+	if !ok {
+		return hx.Outcome{Skipped: true, Note: "unknown site"}
+	}
+	v := ParseMany(src, nil, CollectParses)
+	cls := collectClass(c.Sites)
+	switch v.Kind {
+	case "panic":
+		return hx.Fail("C19/parse/panic", "parser panicked: "+v.Samples[0], c.Verdict, "panic", src)
+	case "verdict-varies":
+		return hx.Fail("C19/parse/verdict-varies/collected-"+cls, fmt.Sprintf("%d parses of one source: both accepted and rejected", CollectParses), "one outcome", v.Samples, src)
+	case "error-varies":
+		return hx.Fail("C19/parse/error-varies/collected-"+cls,
+			fmt.Sprintf("%d parses of one source with %d independent errors gave %d different error messages/positions", CollectParses, len(c.Sites), v.Distinct),
+			"one message and position", v.Samples, src)
+	case "compiled-varies", "disassembly-varies":
+		return hx.Fail("C19/parse/"+v.Kind+"/collected", fmt.Sprintf("%d parses of one source gave %d different programs", CollectParses, v.Distinct), "one program", v.Samples, src)
+	}
+	if v.Accepted != (c.Verdict == "accept") {
+		return hx.Fail("C19/parse/verdict/collected-spec-"+c.Verdict, "verdict of every parse differs from the specification's", c.Verdict, v.Samples, src)
+	}
+	if c.Distinct != 0 && v.Distinct != c.Distinct {
+		return hx.Fail("C19/parse/outcomes/collected-"+cls, fmt.Sprintf("%d distinct outcomes, the specification says %d", v.Distinct, c.Distinct), c.Distinct, v.Samples, src)
+	}
+	return hx.OK(len(c.Sites) >= 2)
+}
+
 // Replay dispatches on the family of the exported behaviour.
 func Replay(raw json.RawMessage) hx.Outcome {
 	var head struct {
@@ -158,6 +269,9 @@ func Replay(raw json.RawMessage) hx.Outcome {
 	}
 	if head.Fam == "shared" {
 		return replayShared(raw)
+	}
+	if head.Fam == "collect" {
+		return replayCollect(raw)
 	}
 	return replayParse(raw)
 }
